@@ -1,10 +1,156 @@
-/- driver for C15 : to be filled in (stub keeps Main.lean compiling) -/
+/- driver for C15 (penalty methods), Float instantiation of Model/Penalty -/
 import MysticVerif.Basic.Proto
+import MysticVerif.Model.Dsl
+import MysticVerif.Model.Penalty
 
 namespace MysticVerif.DrvC15
-open MysticVerif
+open MysticVerif MysticVerif.Pen MysticVerif.Dsl
+
+/-- CPython's `float ** float` / `pow(float, int)` call the C library `pow`, as `Float.pow` does
+(same `libm`, so the results are bit-identical; `x*x` and `sqrt` are NOT: ~0.08% of inputs differ) -/
+instance : PenOps Float where
+  powi h n := Float.pow h (Float.ofInt n)
+  sq x := Float.pow x 2.0
+  root x := Float.pow x 0.5
+  abs := Float.abs
+  log := Float.log
+  inf := 1.0 / 0.0
+
+/-! conditions: DSL expressions, `as_penalty`'s rnorm of a DSL constraint, and the `coupler` combinators
+over member penalty stacks (plumbing only; the theorems take condition values as parameters) -/
+mutual
+inductive CondT where
+  | e (ex : Expr)
+  | rnorm (c : Con)
+  | and (ms : List StackT)
+  | or (ms : List StackT)
+  | not (t : PType) (c : CondT)
+inductive StackT where
+  | mk (levels : List (Level Float × CondT)) (f : Expr)
+end
+
+instance : Inhabited CondT := ⟨.e (.c 0.0)⟩
+instance : Inhabited StackT := ⟨.mk [] (.c 0.0)⟩
+
+mutual
+partial def evalCond (c : CondT) (x : List Float) : Option Float :=
+  match c with
+  | .e ex => ex.eval x
+  | .rnorm con => (con.apply x).map (fun cx => rnorm x cx)
+  | .and ms =>
+    match ms.mapM (fun s => (evalStackT s x).toOption) with
+    | none => none                      -- a member raised ZeroDivisionError inside the condition
+    | some vals => some (andCond vals)
+  | .or ms =>
+    match ms.mapM (fun s => (evalStackT s x).toOption) with
+    | none => none
+    | some [] => none                   -- never generated (python: ValueError)
+    | some (v :: vals) => some (orCond v vals)
+  | .not t c => (evalCond c x).map (notCond t)
+partial def evalStackT (s : StackT) (x : List Float) : Except Err Float :=
+  match s with
+  | .mk levels f => evalStack (levels.map fun lc => (lc.1, evalCond lc.2 x)) ((f.eval x).getD 0.0)
+end
+
+def parsePType : Val → Option PType
+  | .sym "qEq" => some .qEq | .sym "lEq" => some .lEq | .sym "uEq" => some .uEq
+  | .sym "uIneq" => some .uIneq | .sym "barrier" => some .barrier | .sym "qIneq" => some .qIneq
+  | .sym "lIneq" => some .lIneq | .sym "lagIneq" => some .lagIneq | .sym "lagEq" => some .lagEq
+  | _ => none
+
+mutual
+partial def parseCond : Val → Option CondT
+  | .list [.sym "e", ex] => do pure (.e (← parseExpr ex))
+  | .list [.sym "rnorm", c] => do pure (.rnorm (← parseCon c))
+  | .list (.sym "and" :: ms) => do pure (.and (← ms.mapM parseStack))
+  | .list (.sym "or" :: ms) => do pure (.or (← ms.mapM parseStack))
+  | .list [.sym "not", t, c] => do pure (.not (← parsePType t) (← parseCond c))
+  | _ => none
+/-- level: `(T k h n (y...) cond)` -/
+partial def parseLevel : Val → Option (Level Float × CondT)
+  | .list [t, k, h, .int n, ys, c] => do
+    pure ({ t := ← parsePType t, k := ← k.asFloat?, h := ← h.asFloat?, n := n, y := ← ys.asFloats? }, ← parseCond c)
+  | _ => none
+/-- stack: `(stack (level*) fexpr)` -/
+partial def parseStack : Val → Option StackT
+  | .list [.sym "stack", .list ls, f] => do pure (.mk (← ls.mapM parseLevel) (← parseExpr f))
+  | _ => none
+end
+
+def pErr : Err → String
+  | .zerodiv => "(raise zerodiv)"
+  | .index => "(raise index)"
+
+def pState (ls : List (Level Float)) : String :=
+  "(st " ++ " ".intercalate (ls.map fun l => s!"({l.n} {pFs l.y})") ++ ")"
+
+def pVal : Except Err Float → String
+  | .ok v => s!"(v {pF v})"
+  | .error e => pErr e
+
+structure St where
+  ls : List (Level Float)
+  out : Array String := #[]
+
+/-- one operation on the live stack; `conds` are the (immutable) conditions of the levels -/
+def step (conds : List CondT) (f : Expr) (s : St) (op : Val) : Option St := do
+  let pairs (j : Nat) (x : List Float) : List (Level Float × Option Float) :=
+    ((s.ls.zip conds).drop j).map fun lc => (lc.1, evalCond lc.2 x)
+  match op with
+  | .list [.sym "call", .int j, xv] =>
+    let x ← xv.asFloats?
+    pure { s with out := s.out.push (pVal (evalStack (pairs j.toNat x) ((f.eval x).getD 0.0))) }
+  | .list [.sym "additive", .int j, xv, gv] =>
+    let x ← xv.asFloats?
+    let g ← parseExpr gv
+    let r := match evalStack (pairs j.toNat x) ((f.eval x).getD 0.0) with
+      | .ok px => Except.ok (additive px ((g.eval x).getD 0.0))
+      | .error e => .error e
+    pure { s with out := s.out.push (pVal r) }
+  | .list [.sym "error", .int j, xv] =>
+    let x ← xv.asFloats?
+    pure { s with out := s.out.push (pVal (.ok (errStack (pairs j.toNat x)))) }
+  | .list [.sym "iter", .int j] =>
+    let ls := onFrom j.toNat (iterStack none) s.ls
+    pure { ls := ls, out := s.out.push (pState ls) }
+  | .list [.sym "iterI", .int j, .int i] =>
+    let ls := onFrom j.toNat (iterStack (some i)) s.ls
+    pure { ls := ls, out := s.out.push (pState ls) }
+  | .list [.sym "clear", .int j] =>
+    let ls := onFrom j.toNat clearStack s.ls
+    pure { ls := ls, out := s.out.push (pState ls) }
+  | .list [.sym "store", .int j, xv] =>
+    let x ← xv.asFloats?
+    let r := storeStack none (pairs j.toNat x)
+    let ls := s.ls.take j.toNat ++ r.1
+    pure { ls := ls, out := s.out.push (match r.2 with | some e => pErr e ++ " " ++ pState ls | none => pState ls) }
+  | .list [.sym "storeI", .int j, xv, .int i] =>
+    let x ← xv.asFloats?
+    let r := storeStack (some i) (pairs j.toNat x)
+    let ls := s.ls.take j.toNat ++ r.1
+    pure { ls := ls, out := s.out.push (match r.2 with | some e => pErr e ++ " " ++ pState ls | none => pState ls) }
+  | .list [.sym "stored", .int j] =>
+    let l ← s.ls[j.toNat]?
+    pure { s with out := s.out.push s!"(ys {pFs l.y})" }
+  | .list [.sym "storedI", .int j, .int i] =>
+    let l ← s.ls[j.toNat]?
+    pure { s with out := s.out.push s!"(v {pF (storedAt l.y i)})" }
+  | .list [.sym "iteration", .int j] =>
+    pure { s with out := s.out.push s!"(n {iteration (s.ls.drop j.toNat)})" }
+  | _ => none
 
 def handle : Handler
+  | .sym "run" :: args => Id.run do
+    let some lv := (kw? args "levels").bind Val.asList? |>.bind (·.mapM parseLevel) | return "bad-op"
+    let some f := (kw? args "f").bind parseExpr | return "bad-op"
+    let some ops := (kw? args "ops").bind Val.asList? | return "bad-op"
+    let conds := lv.map (·.2)
+    let mut s : St := { ls := lv.map (·.1) }
+    for op in ops do
+      match step conds f s op with
+      | some s' => s := s'
+      | none => return "bad-op"
+    return "ok r=(" ++ " ".intercalate s.out.toList ++ ")"
   | _ => "bad-op"
 
 end MysticVerif.DrvC15
